@@ -10,8 +10,14 @@ open ASV.CC.Spec
 
 /-! ### sorting keeps the elements -/
 
-theorem mem_sortProtos {l : List Proto} {p : Proto} : p ∈ sortProtos l ↔ p ∈ l := mem_sortBy _ _ _
-theorem mem_sortCands {l : List Cand} {c : Cand} : c ∈ sortCands l ↔ c ∈ l := mem_sortBy _ _ _
+theorem perm_sortProtos (l : List Proto) : (sortProtos l).Perm l :=
+  (perm_pySort protoLt _).trans (perm_sortBy tieLt l)
+theorem perm_sortCands (l : List Cand) : (sortCands l).Perm l := perm_pySort candLt l
+theorem mem_sortProtos {l : List Proto} {p : Proto} : p ∈ sortProtos l ↔ p ∈ l := (perm_sortProtos l).mem_iff
+theorem mem_sortCands {l : List Cand} {c : Cand} : c ∈ sortCands l ↔ c ∈ l := (perm_sortCands l).mem_iff
+theorem length_sortProtos (l : List Proto) : (sortProtos l).length = l.length := (perm_sortProtos l).length_eq
+theorem nodup_sortProtos {l : List Proto} (h : l.Nodup) : (sortProtos l).Nodup :=
+  (perm_sortProtos l).nodup_iff.2 h
 
 /-! ### the constructor -/
 
@@ -149,6 +155,8 @@ theorem buildOne_spec {wrap : Option Int} {kind : Kind} {t t' : Table} {g : List
         split at h
         · -- nothing new
           rename_i hextras
+          split at h
+          · cases h
           injection h with h; subst h
           refine ⟨?_, fun p hp => hp, fun p hp => hp⟩
           intro p hp
